@@ -99,7 +99,7 @@ static V *leaf_model(const struct leaf *l)
 }
 
 /* ---- family ---- */
-#define MAXE 4096
+#define MAXE 8192
 static struct json_object *EO[MAXE];
 static V *EV[MAXE];
 static int EN;
@@ -198,20 +198,19 @@ static void containers_over(const int *pool, int npool)
 }
 static void build_family(void)
 {
-	int pool0[NSUB];
+	int pool0[64];
 	for (int i = 0; i < NLEAVES; i++)
 	{
 		int d = add_desc((struct desc){0, i, 0, {0, 0}, {0, 0}});
-		if (i < NSUB)
-			pool0[i] = d;
+		pool0[i] = d;
 	}
-	int nsub = mc_tier ? NSUB : 8;
+	int nsub = mc_tier ? NLEAVES : 8;
 	int d1_start = ND;
 	containers_over(pool0, nsub);
 	int d1_end = ND;
 	/* depth-2 children: a sub-family of depth<=1 values */
-	int pool1[16], np1 = 0;
-	int want = mc_tier ? 12 : 7;
+	int pool1[32], np1 = 0;
+	int want = mc_tier ? 20 : 7;
 	pool1[np1++] = pool0[3]; /* int 5 */
 	pool1[np1++] = pool0[9]; /* NaN */
 	pool1[np1++] = d1_start; /* [] */
